@@ -53,3 +53,9 @@ Lemma dispose_timeout_shape_known : DisposeTimeoutShapeFound = true.
 Proof. reflexivity. Qed.
 Lemma close_connection_shape_known : CloseConnectionShapeFound = true.
 Proof. reflexivity. Qed.
+
+(* round 5: DisposeAll's order handling and waitForTokens were found and classified *)
+Lemma dispose_all_shape_known : DisposeAllShapeFound = true.
+Proof. reflexivity. Qed.
+Lemma throttle_wait_shape_known : ThrottleWaitShapeFound = true.
+Proof. reflexivity. Qed.
